@@ -402,6 +402,23 @@ func c15EvalE2E(t *fw.T, c *fw.Case) {
 			return
 		}
 	}
+	// the closing parenthesis of the text and the closing parenthesis of the directive around it on one line
+	if host == "http" && !strings.ContainsAny(src, "\r") {
+		mk := func(closing string) run.Doc {
+			return run.Single([]byte("JSIGHT 0.3\nGET /a\n(\n  Description\n  (\n" + strings.TrimRight(src, "\n") + "\n  " + closing + "\nGET /b\n  200 any\n"))
+		}
+		oa := t.Exec(mk(")\n)"))
+		for _, closing := range []string{"))", ") )", ")\t) # c"} {
+			d := mk(closing)
+			o := t.Exec(d)
+			t.Count("closings_on_one_line_checked")
+			if o.Outcome != oa.Outcome || string(o.JSON) != string(oa.JSON) {
+				c.Docs = []run.Doc{mk(")\n)"), d}
+				t.Violation("closings-on-one-line", fmt.Sprintf("text %q: the closing parentheses of the text and of the method on one line (%q) change the result: separate lines %s | one line %s", src, closing, describe(oa), describe(o)))
+				return
+			}
+		}
+	}
 	if hookOK && fb != hookRes {
 		t.Violation("catalog-vs-normaliser:"+host, fmt.Sprintf("text %q: catalog has %q, the normaliser alone gives %q", src, fb, hookRes))
 		return
